@@ -100,6 +100,15 @@ pub async fn scan_table(ds: &Dataset) -> Result<Table, String> {
     Ok(t)
 }
 
+/// scan in its own task: a panic inside the reader (F14) must not take the harness down
+pub async fn scan_safe(ds: &Dataset) -> Result<Table, String> {
+    let d = ds.clone();
+    match tokio::spawn(async move { scan_table(&d).await }).await {
+        Ok(r) => r,
+        Err(_) => Err("panic while scanning (Column declared non-nullable contains nulls?)".to_string()),
+    }
+}
+
 /// the effect of `op` computed from the table at its read version, applied to the current table
 fn expect(op: &Op, read: &Table, cur: &Table, v1: &Table) -> Table {
     let mut t = cur.clone();
@@ -132,7 +141,10 @@ fn expect(op: &Op, read: &Table, cur: &Table, v1: &Table) -> Table {
         Op::Update(ids) => {
             for i in ids {
                 if let Some(r) = read.get(i) {
-                    let mut n = r.clone();
+                    let mut n = Row::new();
+                    for c in &cols {
+                        n.insert(c.clone(), r.get(c).copied().flatten());
+                    }
                     n.insert("x".into(), r["x"].map(|v| v + 1000));
                     t.insert(*i, n);
                 }
@@ -303,7 +315,7 @@ pub async fn histories(sink: &mut Sink, rng: &mut Rng, kinds: &[&str], n: usize,
         let v1 = scan_table(&base).await.unwrap();
         let mut tables: Vec<Table> = vec![v1.clone()]; // tables[v-1]
         let mut log: Vec<Value> = vec![];
-        let mut committed: Vec<(Op, usize)> = vec![]; // (op, read version)
+        let mut committed: Vec<(Op, usize, usize)> = vec![]; // (op, read version, version it created)
         let mut broken = false;
         for (op, stale) in hist {
             let latest = Dataset::open(&uri).await.unwrap();
@@ -331,15 +343,21 @@ pub async fn histories(sink: &mut Sink, rng: &mut Rng, kinds: &[&str], n: usize,
                     sink.oracle_ok();
                     continue;
                 }
-                if new_v != cur_v + 1 {
+                // compaction first commits a ReserveFragments transaction: two versions
+                let extra_ok = matches!(op, Op::Compact) && new_v == cur_v + 2;
+                if new_v != cur_v + 1 && !extra_ok {
                     sink.oracle_fail(None, "a successful operation added more than one version", case);
                     broken = true;
                     break;
                 }
+                if extra_ok {
+                    let prev = tables[cur_v - 1].clone();
+                    tables.push(prev);
+                }
                 // known finding F14: append after a concurrent add of a non-null column
-                let f14 = matches!(op, Op::Append(_)) && committed.iter().any(|(o, _)| matches!(o, Op::AddColumn)) && rv <= committed.iter().position(|(o, _)| matches!(o, Op::AddColumn)).map(|p| p + 1).unwrap_or(0);
-                let f12 = matches!(op, Op::CreateIndex) && committed.iter().enumerate().any(|(p, (o, _))| matches!(o, Op::MergePartial(_)) && p + 2 > rv);
-                let mut actual = scan_table(&after).await;
+                let f14 = matches!(op, Op::Append(_)) && committed.iter().any(|(o, _, cv)| matches!(o, Op::AddColumn) && *cv > rv);
+                let f12 = matches!(op, Op::CreateIndex) && committed.iter().any(|(o, _, cv)| matches!(o, Op::MergePartial(_)) && *cv > rv);
+                let mut actual = scan_safe(&after).await;
                 if plant.as_deref() == Some("e2e") && hi == 3 {
                     if let Ok(t) = actual.as_mut() {
                         if let Some(k) = t.keys().next().copied() {
@@ -360,7 +378,7 @@ pub async fn histories(sink: &mut Sink, rng: &mut Rng, kinds: &[&str], n: usize,
                         break;
                     }
                     Ok(t) => {
-                        let want = expect(op, &tables[rv - 1], &tables[cur_v - 1], &v1);
+                        let want = expect(op, &tables[rv - 1], &tables[new_v - 2], &v1);
                         if t != want {
                             let diff: Vec<i32> = t.keys().chain(want.keys()).filter(|k| t.get(k) != want.get(k)).copied().collect();
                             sink.oracle_fail(None, &format!("committed table differs from (table before) + (effect computed at read version v{rv}); ids that differ: {:?}", diff), case.clone());
@@ -368,7 +386,7 @@ pub async fn histories(sink: &mut Sink, rng: &mut Rng, kinds: &[&str], n: usize,
                             sink.oracle_ok();
                         }
                         tables.push(t);
-                        committed.push((op.clone(), rv));
+                        committed.push((op.clone(), rv, new_v));
                     }
                 }
                 // indexed query == unindexed query whenever an index exists
@@ -392,14 +410,20 @@ pub async fn histories(sink: &mut Sink, rng: &mut Rng, kinds: &[&str], n: usize,
                     // an operation that is rejected for another reason (e.g. schema mismatch) must not change anything either
                     sink.count("e2e:other_error");
                 }
-                if new_v != cur_v {
+                // a compaction that fails at its Rewrite commit has already committed its ReserveFragments version
+                let reserve_only = matches!(op, Op::Compact) && new_v == cur_v + 1;
+                if new_v != cur_v && !reserve_only {
                     sink.oracle_fail(None, "a failed operation changed the latest version", case);
                     broken = true;
                     break;
                 }
-                match scan_table(&after).await {
+                match scan_safe(&after).await {
                     Ok(t) if t == tables[cur_v - 1] => sink.oracle_ok(),
                     _ => sink.oracle_fail(None, "a failed operation changed the table", case),
+                }
+                if reserve_only {
+                    let prev = tables[cur_v - 1].clone();
+                    tables.push(prev);
                 }
             }
         }
